@@ -2483,7 +2483,10 @@ class CollocatedIntegratedOptimizationProblem(OptimizationProblem, metaclass=ABC
                             history_timeseries = history[canonical]
                         except KeyError:
                             if extrapolate:
+                                # Physical units, like the history values
                                 sym = variable_values[0]
+                                if nominal != 1:
+                                    sym = sym * nominal
                             else:
                                 sym = np.nan
                         else:
